@@ -1435,7 +1435,10 @@ class _TextReader:
                 if not token.is_identifier():
                     self.tok.unget(token)
                     break
-                self.flags = self.flags | dns.flags.from_text(token.value)
+                try:
+                    self.flags = self.flags | dns.flags.from_text(token.value)
+                except KeyError:
+                    raise dns.exception.SyntaxError(f"unknown flag '{token.value}'")
         elif what == "edns":
             self.edns = self.tok.get_int()
             self.ednsflags = self.ednsflags | (self.edns << 16)
@@ -1447,7 +1450,14 @@ class _TextReader:
                 if not token.is_identifier():
                     self.tok.unget(token)
                     break
-                self.ednsflags = self.ednsflags | dns.flags.edns_from_text(token.value)
+                try:
+                    self.ednsflags = self.ednsflags | dns.flags.edns_from_text(
+                        token.value
+                    )
+                except KeyError:
+                    raise dns.exception.SyntaxError(
+                        f"unknown EDNS flag '{token.value}'"
+                    )
         elif what == "payload":
             self.payload = self.tok.get_int()
             if self.edns < 0:
